@@ -63,6 +63,10 @@ def enumerate_cases(tier):
             "origin": bool((us + mo + ws + wd + ts) % 2),  # with / without a geographic reference origin
         }
         cases.append(case)
+    # long series (a week of half-hourly data): lengths beyond the small integers an interpreter may share as objects
+    for n, nts in ((256, 256), (257, 257), (300, 300), (257, 256), (300, 301)):
+        cases.append({"ustar": [0.2 + 0.001 * i for i in range(n)], "z0": None, "mol": -80.0, "wind_speed": [3.0 + 0.01 * i for i in range(n)],
+                      "wind_dir": 200.0, "timestamps": [f"t{i:04d}" for i in range(nts)], "drive": False, "origin": False})
     return cases
 
 
